@@ -10,10 +10,15 @@ git checkout -q --detach "$(git -C /repo rev-parse HEAD)" || exit 3
 cp /repo/src/scenic/syntax/parser.py src/scenic/syntax/parser.py
 echo "== demo without change"; PYTHONPATH=$wt/src timeout 900 /venv/bin/python SEEDED/demo$k.py >/tmp/seed_demo_without.log 2>&1; echo "rc=$?"
 git apply SEEDED/change$k.diff || { echo "patch does not apply"; exit 3; }
+if grep -q "scenic.gram" SEEDED/change$k.diff; then   # grammar change: regenerate the (untracked) parser, keeping its header
+  /venv/bin/python -m pegen src/scenic/syntax/scenic.gram -o /tmp/parser_new.py >/dev/null 2>&1 && \
+    (head -2 src/scenic/syntax/parser.py; tail -n +3 /tmp/parser_new.py) > /tmp/parser_merged.py && cp /tmp/parser_merged.py src/scenic/syntax/parser.py
+fi
 echo "== demo with change"; PYTHONPATH=$wt/src timeout 900 /venv/bin/python SEEDED/demo$k.py >/tmp/seed_demo_with.log 2>&1; echo "rc=$?"
 for c in "$@"; do
   echo "== check $c against the change"
   (cd /verif && PYTHONPATH=$wt/src VERIF_EVIDENCE_SUFFIX=.seeded timeout 3000 ./check $c --tier quick > /tmp/seed_check_$c.log 2>&1; echo "   rc=$? violations=$(grep -c '^VIOLATION' /tmp/seed_check_$c.log)"; grep -E "^\[C|MACHINERY|KNOWN-FINDING" /tmp/seed_check_$c.log | cut -c1-160; grep -A1 "^VIOLATION" /tmp/seed_check_$c.log | grep -v "^VIOLATION\|^--" | head -2 | cut -c1-260)
 done
 git checkout -q -- src
+cp /repo/src/scenic/syntax/parser.py src/scenic/syntax/parser.py
 echo "== reverted"
